@@ -108,15 +108,36 @@ Definition for_each (s : list N) : iter_result := iterate (S (length s)) s 0.
 
 (* Which loop opcode the compiler selected: StringForLoop when it typed the iterable as
    string (backend/src/compiler/stmt/looping.rs compile_typed_for_each), VecForLoop when the
-   static type is Dynamic / an unresolved variable ("default to VecForLoop (works for both at
-   runtime via object kind)").  The VecForLoop arm (control_flow.inc op 178) continues only
-   `if let ObjectKind::Vec(v) = &obj.kind`: on a string object it falls through at once --
-   the loop body never runs, no error is raised, the index register stays 0. *)
+   static type is Dynamic / an unresolved variable.  Since 8e1534c the VecForLoop arm
+   (control_flow.inc op 178) dispatches on the object kind; for a string object its index
+   register holds the byte offset and it does what StringForLoop does:
+        index < s.len() => ch = s[index..].chars().next(); item = ch.encode_utf8();
+                           index += ch.len_utf8()
+   (before that commit the arm continued only for ObjectKind::Vec and a string yielded nothing:
+   old_vec_for_loop_on_string in Proofs/Utf8Proofs.v). *)
 Inductive sel := SelString | SelDynamic.
+Definition vec_for_loop_step_on_string (s : list N) (index : nat) : option (list N * nat) :=
+  if (index <? length s)%nat then
+    match decode_first (skipn index s) with
+    | Some (ch, _) => Some (encode ch, (index + len_utf8 ch)%nat)
+    | None => None
+    end
+  else None.
+Fixpoint iterate_dyn (fuel : nat) (s : list N) (off : nat) : iter_result :=
+  match fuel with
+  | O => {| items := []; final_off := off; finished := false |}
+  | S k =>
+      match vec_for_loop_step_on_string s off with
+      | None => {| items := []; final_off := off; finished := true |}
+      | Some (it, off') =>
+          let r := iterate_dyn k s off' in
+          {| items := it :: items r; final_off := final_off r; finished := finished r |}
+      end
+  end.
 Definition vm_for_each (k : sel) (s : list N) : iter_result :=
   match k with
   | SelString => for_each s
-  | SelDynamic => {| items := []; final_off := 0; finished := true |}
+  | SelDynamic => iterate_dyn (S (length s)) s 0
   end.
 (* The dynamic selections for indexing (VecLoadP, arrays.inc op 167) and len (VecLen, op 161)
    have a String arm that is the same code as StringLoadChar / string::len: load_char and
